@@ -1725,6 +1725,7 @@ class InTablePhase(Phase):
     def insertText(self, token):
         # If we get here there must be at least one non-whitespace character
         # Do the table magic!
+        self.parser.parseError("unexpected-char-implies-table-voodoo")
         self.tree.insertFromTable = True
         self.parser.phases["inBody"].processCharacters(token)
         self.tree.insertFromTable = False
